@@ -175,28 +175,39 @@ Fixpoint lvl_ok (t : ty) (lvl : Z) : bool :=
 Fixpoint tail_ok (t : ty) (post : toks) : bool :=
   match t with
   | TPrim | TThis => no_is post
-  | TRef _ [] => no_is post && no_lt post
+  | TRef _ _ [] => no_is post && no_lt post
+  | TTypeof _ _ [] => no_lt post && negb (is KDot post)
+  | TImport _ (_ :: _) [] => no_lt post
   | TInfer _ => negb (is KExtends post)
   | TParen _ => negb (is KArrow post)
-  | TUnion _ b | TInter _ b | TKeyof _ b | TCond _ _ _ b | TPred _ b => tail_ok b post
+  | TUnion _ b | TInter _ b | TKeyof _ b | TCond _ _ _ b | TPred _ b | TFn _ _ b => tail_ok b post
+  | TAsserts _ h b => if h then tail_ok b post else no_is post && no_lt post
   | _ => true
   end.
 
 Definition harmless (k : tk) : bool :=
-  match k with KIdent _ | KLt | KLtEq | KLtLt | KLtLtEq | KDot | KExtends | KArrow => false | _ => true end.
+  match k with
+  | KIdent c => negb (c =? c_is)
+  | KLt | KLtEq | KLtLt | KLtLtEq | KDot | KExtends | KArrow => false
+  | _ => true
+  end.
 
 Lemma tail_ok_harmless t : forall post, harmless (hd_tk post) = true -> tail_ok t post = true.
 Proof.
   induction t; intros post H; cbn [tail_ok]; auto;
+    try (destruct q); try (destruct args); try (destruct hasis); auto;
     unfold no_is, no_lt, is_ctx, is, hd_tk in *; destruct post as [|[k n] p]; cbn in *; auto;
-    try (destruct args; auto); destruct k; cbn in *; try discriminate; auto; try (rewrite ?orb_true_r; reflexivity).
+    destruct k; cbn in *; try discriminate; auto; rewrite ?orb_true_r, ?andb_true_r; auto;
+    unfold tk_eqb; destruct (tk_eq_dec (KIdent i) (KIdent c_is)) as [E|E]; auto;
+    inversion E; subst; discriminate.
 Qed.
 
 Lemma tail_ok_extends t : forall post, hd_tk post = KExtends -> ends_infer t = false -> tail_ok t post = true.
 Proof.
   induction t; intros post H E; cbn [tail_ok ends_infer] in *; auto; try discriminate;
+    try (destruct q); try (destruct args); try (destruct hasis); auto;
     unfold no_is, no_lt, is_ctx, is, hd_tk in *; destruct post as [|[k n] p]; cbn in *; subst; auto;
-    try (destruct args; auto); cbn; rewrite ?orb_true_r; reflexivity.
+    cbn; rewrite ?orb_true_r; reflexivity.
 Qed.
 
 Lemma Ev_det c r1 r2 : Ev c r1 -> Ev c r2 -> r1 = r2.
@@ -217,6 +228,9 @@ Definition start_tk (k : tk) : bool :=
   | _ => true
   end.
 
+Lemma nc_ok_prec4 t : 4 <= prec t -> nc_ok t = true.
+Proof. destruct t; cbn; intros; try reflexivity; lia. Qed.
+
 Lemma lvl_ok_prec t l : 3 <= prec t -> lvl_ok t l = true.
 Proof. destruct t; cbn; intros; try reflexivity; lia. Qed.
 
@@ -236,6 +250,9 @@ Proof.
     repeat match goal with H : _ && _ = true |- _ => apply andb_true_iff in H as [? ?] end; auto.
   all: try (destruct k; try discriminate; reflexivity).
   all: try (destruct ro; reflexivity).
+  all: try (destruct tof; reflexivity).
+  all: try (unfold bind_tk; destruct (x <? 0); reflexivity).
+  all: try (destruct (kind =? 2); [reflexivity|destruct (kind =? 1); reflexivity]).
 Qed.
 
 Lemma not_is_of_start t k post : wfb t = true -> start_tk k = false -> is k (R t post) = false.
@@ -249,7 +266,7 @@ Definition Kst (t : ty) : Prop :=
   forall lvl f post r,
     lvl <= LPrefix ->
     lvl_ok t lvl = true ->
-    (fNoCond f = true -> 4 <= prec t) ->
+    (fNoCond f = true -> nc_ok t = true) ->
     tail_ok t post = true ->
     (prec t = 0 -> StopAll post) ->
     Ev (CSuffix lvl f post) (0, r) ->
@@ -314,7 +331,7 @@ Proof.
   apply andb_true_iff in W as [W Hp].
   apply K; auto.
   - apply lvl_ok_prec. lia.
-  - intros _. lia.
+  - intros _. apply nc_ok_prec4. lia.
   - apply tail_ok_harmless. reflexivity.
   - intros E. lia.
   - apply suffix_bracket_empty. exact Hs.
@@ -326,7 +343,7 @@ Proof.
   apply andb_true_iff in W as [W Wu]. apply andb_true_iff in W as [W Hp].
   apply K; auto.
   - apply lvl_ok_prec. lia.
-  - intros _. lia.
+  - intros _. apply nc_ok_prec4. lia.
   - apply tail_ok_harmless. reflexivity.
   - intros E. lia.
   - eapply ev2; [apply (K_delim u Ku Wu fl0 (tk1 KRBrack :: post)); [reflexivity|reflexivity|apply tail_ok_harmless; reflexivity]|exact Hs|].
@@ -339,12 +356,12 @@ Lemma K_union a b : Kst a -> Kst b -> Kst (TUnion a b).
 Proof.
   intros Ka Kb W lvl f post r Hl Hlv Hf Ht _ Hs. cbn [R wfb lvl_ok tail_ok prec] in *.
   repeat match goal with H : _ && _ = true |- _ => apply andb_true_iff in H as [? ?] end.
-  assert (Hnc : fNoCond f = false) by (destruct (fNoCond f); auto; specialize (Hf eq_refl); lia).
+  assert (Hfa : fNoCond f = true -> nc_ok a = true) by (intros E; specialize (Hf E); apply andb_true_iff in Hf; tauto).
+  assert (Hfb : fNoCond f = true -> nc_ok b = true) by (intros E; specialize (Hf E); apply andb_true_iff in Hf; tauto).
   destruct Hs as [n Hs].
   destruct (split n lvl LBitOr f f post r ltac:(unfold LBitOr in *; lia) eq_refl (or_introl eq_refl) Hs) as [r1 [A B]].
   apply Ka; auto.
   - destruct a; cbn in *; auto; unfold LBitOr, LBitAnd in *; try lia.
-  - intros E; congruence.
   - apply tail_ok_harmless. reflexivity.
   - intros E. lia.
   - eapply (ev2 _ (CType LBitOr f (R b post)) (0, r1) (CSuffix lvl f r1) (0, r)); [|exact B|].
@@ -358,12 +375,12 @@ Lemma K_inter a b : Kst a -> Kst b -> Kst (TInter a b).
 Proof.
   intros Ka Kb W lvl f post r Hl Hlv Hf Ht _ Hs. cbn [R wfb lvl_ok tail_ok prec] in *.
   repeat match goal with H : _ && _ = true |- _ => apply andb_true_iff in H as [? ?] end.
-  assert (Hnc : fNoCond f = false) by (destruct (fNoCond f); auto; specialize (Hf eq_refl); lia).
+  assert (Hfa : fNoCond f = true -> nc_ok a = true) by (intros E; specialize (Hf E); apply andb_true_iff in Hf; tauto).
+  assert (Hfb : fNoCond f = true -> nc_ok b = true) by (intros E; specialize (Hf E); apply andb_true_iff in Hf; tauto).
   destruct Hs as [n Hs].
   destruct (split n lvl LBitAnd f f post r ltac:(unfold LBitAnd in *; lia) eq_refl (or_introl eq_refl) Hs) as [r1 [A B]].
   apply Ka; auto.
   - destruct a; cbn in *; auto; unfold LBitOr, LBitAnd in *; try lia.
-  - intros E; congruence.
   - apply tail_ok_harmless. reflexivity.
   - intros E. lia.
   - eapply (ev2 _ (CType LBitAnd f (R b post)) (0, r1) (CSuffix lvl f r1) (0, r)); [|exact B|].
@@ -377,7 +394,7 @@ Lemma K_keyof ro t : Kst t -> Kst (TKeyof ro t).
 Proof.
   intros K W lvl f post r Hl _ Hf Ht _ Hs. cbn [R wfb tail_ok prec] in *.
   apply andb_true_iff in W as [W Hp].
-  assert (Hnc : fNoCond f = false) by (destruct (fNoCond f); auto; specialize (Hf eq_refl); lia).
+  assert (Hnc : fNoCond f = false) by (destruct (fNoCond f); auto; specialize (Hf eq_refl); discriminate).
   destruct Hs as [n Hs].
   assert (HL : LBitAnd <= LPrefix) by (unfold LBitAnd, LPrefix; lia).
   destruct (split n lvl LPrefix f fl0 post r Hl (eq_sym Hnc) (or_intror HL) Hs) as [r1 [A B]].
@@ -396,7 +413,7 @@ Lemma K_cond c e a b : Kst c -> Kst e -> Kst a -> Kst b -> Kst (TCond c e a b).
 Proof.
   intros Kc Ke Ka Kb W lvl f post r Hl Hlv Hf Ht Hst Hs. cbn [R wfb tail_ok prec lvl_ok] in *.
   repeat match goal with H : _ && _ = true |- _ => apply andb_true_iff in H as [? ?] end.
-  assert (Hnc : fNoCond f = false) by (destruct (fNoCond f); auto; specialize (Hf eq_refl); lia).
+  assert (Hnc : fNoCond f = false) by (destruct (fNoCond f); auto; specialize (Hf eq_refl); discriminate).
   specialize (Hst eq_refl).
   apply Kc; auto; try (intros; congruence); try (intros; lia).
   - apply tail_ok_extends; [reflexivity|]. apply negb_true_iff. assumption.
@@ -424,8 +441,10 @@ Proof.
   apply type_of_prefix0.
   eapply (ev1 _ (CType LLowest fl0 (R t post)) (0, post)).
   - apply K_delim; auto.
-  - intros s E1. cbn [F]. unfold F_prefix. cbn [hd_tk tk1 fst tl].
-    rewrite (ident_kind_normal x Hx). cbn iota. unfold ident_tail. cbn. unfold type_at, snd_of, bind. rewrite E1. reflexivity.
+  - intros s E1. cbn [F]. unfold F_prefix, bind_tk, bind_ok in *. destruct (x <? 0).
+    + cbn [hd_tk tk1 fst tl]. cbn. unfold type_at, snd_of, bind. rewrite E1. reflexivity.
+    + cbn [hd_tk tk1 fst tl]. cbn [orb] in Hx. rewrite (ident_kind_normal x Hx). cbn iota. unfold ident_tail. cbn.
+      unfold type_at, snd_of, bind. rewrite E1. reflexivity.
 Qed.
 
 Lemma push_gt_ok post :
@@ -455,220 +474,4 @@ Proof.
     + intros s E1 E2. cbn [F]. unfold F_argloop, type_at, snd_of, bind. rewrite E1. cbn. exact E2.
 Qed.
 
-Lemma K_ref c args : Forall Kst args -> Kst (TRef c args).
-Proof.
-  intros HK W lvl f post r Hl _ Hf Ht _ Hs. cbn [R wfb tail_ok] in *.
-  apply andb_true_iff in W as [Hc W].
-  destruct args as [|a l].
-  - (* bare identifier *)
-    apply andb_true_iff in Ht as [Hi Hlt]. unfold no_is in Hi. apply negb_true_iff in Hi.
-    eapply type_of_prefix; [|exact Hs].
-    unfold no_lt in Hlt. destruct (hd_nl post) eqn:Enl.
-    + apply ev0. intros s. cbn [F]. unfold F_prefix. cbn [hd_tk tk1 fst tl].
-      rewrite (ident_kind_normal c Hc). cbn iota. unfold ident_tail. rewrite Enl. cbn [negb].
-      rewrite !andb_false_r. reflexivity.
-    + cbn [negb] in Hi. rewrite andb_true_r in Hi.
-      eapply (ev1 _ (CArgs false post) (0, post)).
-      * apply ev0. intros s. cbn [F]. unfold F_args. cbn [orb] in Hlt.
-        destruct (hd_tk post); try discriminate; reflexivity.
-      * intros s E1. cbn [F]. unfold F_prefix. cbn [hd_tk tk1 fst tl].
-        rewrite (ident_kind_normal c Hc). cbn iota. unfold ident_tail. rewrite Enl. cbn [negb]. rewrite !andb_true_r, Hi.
-        unfold snd_of, bind. rewrite E1. reflexivity.
-  - destruct (push_gt_ok post) as [P1 [P2 [P3 P4]]].
-    assert (HJ : Ev (CArgLoop (join [tk1 KComma] (map R (a :: l)) (push_gt mg post))) (0, push_gt mg post))
-      by (apply args_loop; auto; discriminate).
-    remember (join [tk1 KComma] (map R (a :: l)) (push_gt mg post)) as J eqn:EJ. clear EJ.
-    eapply type_of_prefix; [|exact Hs].
-    eapply (ev1 _ (CArgs false (tk1 KLt :: J)) (1, post)).
-    + eapply (ev1 _ (CArgLoop J) (0, push_gt mg post)); [exact HJ|].
-      intros s E1. cbn [F]. unfold F_args. cbn [hd_tk tk1 fst expect_lt]. unfold snd_of, bind. rewrite E1. rewrite P4. reflexivity.
-    + intros s E1. cbn [F]. unfold F_prefix. cbn [hd_tk tk1 fst tl].
-      rewrite (ident_kind_normal c Hc). cbn iota. unfold ident_tail. cbn. unfold snd_of, bind.
-      change ((KLt, false) :: J) with (tk1 KLt :: J). rewrite E1. reflexivity.
-Qed.
-
-(* tuple elements *)
-Definition Pst (t : ty) : Prop := Kst t /\ match t with TElem _ _ x => Kst x | _ => True end.
-
-Lemma tuple_loop : forall es, Forall Pst es ->
-  forallb (fun e => match e with TElem _ _ x => wfb x | _ => false end) es = true ->
-  forall post, Ev (CTuple (join [tk1 KComma] (map R es) (tk1 KRBrack :: post))) (0, tk1 KRBrack :: post).
-Proof.
-  induction es as [|e l IH]; intros HP W post.
-  - cbn [map join]. apply ev0. intros s. reflexivity.
-  - inversion HP as [|? ? Pe Pl]; subst. cbn [forallb] in W. apply andb_true_iff in W as [We Wl].
-    destruct e; try discriminate. destruct Pe as [_ Kx].
-    assert (Hstart : forall p, is KRBrack (R e p) = false /\ is KDotDotDot (R e p) = false).
-    { intros p. split; apply not_is_of_start; auto. }
-    destruct l as [|y l'].
-    + cbn [map join R].
-      eapply (ev1 _ (CType LLowest fl_tup (R e ((if opt then [tk1 KQuestion] else []) ++ tk1 KRBrack :: post))) (0, (if opt then [tk1 KQuestion] else []) ++ tk1 KRBrack :: post)).
-      * apply K_delim; auto. destruct opt; reflexivity. apply tail_ok_harmless. destruct opt; reflexivity.
-      * intros s E1. cbn [F]. unfold F_tuple.
-        destruct dots; cbn [app].
-        -- unfold type_at, snd_of, bind. cbn in E1 |- *. rewrite E1. destruct opt; reflexivity.
-        -- destruct (Hstart ((if opt then [tk1 KQuestion] else []) ++ tk1 KRBrack :: post)) as [A B]. rewrite A, B.
-           unfold type_at, snd_of, bind. rewrite E1. destruct opt; reflexivity.
-    + change (join [tk1 KComma] (map R (TElem dots opt e :: y :: l')) (tk1 KRBrack :: post))
-        with (R (TElem dots opt e) (tk1 KComma :: join [tk1 KComma] (map R (y :: l')) (tk1 KRBrack :: post))).
-      specialize (IH Pl Wl post).
-      remember (join [tk1 KComma] (map R (y :: l')) (tk1 KRBrack :: post)) as J eqn:EJ. clear EJ.
-      cbn [R].
-      eapply (ev2 _ (CType LLowest fl_tup (R e ((if opt then [tk1 KQuestion] else []) ++ tk1 KComma :: J))) (0, (if opt then [tk1 KQuestion] else []) ++ tk1 KComma :: J)
-                    (CTuple J) (0, tk1 KRBrack :: post)).
-      * apply K_delim; auto. destruct opt; reflexivity. apply tail_ok_harmless. destruct opt; reflexivity.
-      * exact IH.
-      * intros s E1 E2. cbn [F]. unfold F_tuple.
-        destruct dots; cbn [app].
-        -- unfold type_at, snd_of, bind. cbn in E1 |- *. rewrite E1. destruct opt; cbn; exact E2.
-        -- destruct (Hstart ((if opt then [tk1 KQuestion] else []) ++ tk1 KComma :: J)) as [A B]. rewrite A, B.
-           unfold type_at, snd_of, bind. rewrite E1. destruct opt; cbn; exact E2.
-Qed.
-
-Lemma K_tuple es : Forall Pst es -> Kst (TTuple es).
-Proof.
-  intros HP W lvl f post r Hl _ Hf Ht _ Hs. cbn [R wfb] in *.
-  eapply type_of_prefix; [|exact Hs].
-  eapply (ev1 _ (CTuple (join [tk1 KComma] (map R es) (tk1 KRBrack :: post))) (0, tk1 KRBrack :: post)).
-  - apply tuple_loop; auto.
-  - intros s E1. cbn [F]. unfold F_prefix. cbn [hd_tk tk1 fst tl]. unfold snd_of, bind. rewrite E1. reflexivity.
-Qed.
-
-(* the arrow-argument attempt of skipTypeScriptParenOrFnType on "( ts" fails
-   after at most two tokens *)
-Definition paren_try_fails (ts : toks) : bool :=
-  match ts with
-  | (k1, _) :: rest =>
-      match k1 with
-      | KLBrack | KLBrace | KDotDotDot | KRParen => false
-      | KIdent _ | KThis =>
-          match rest with
-          | (k2, _) :: rest2 =>
-              match k2 with
-              | KQuestion | KColon | KComma => false
-              | KRParen => negb (is KArrow rest2)
-              | _ => true
-              end
-          | [] => true
-          end
-      | _ => true
-      end
-  | [] => true
-  end.
-
-Lemma fnargs_try ts : paren_try_fails ts = true ->
-  (exists n, run n (CFnArgs (tk1 KLParen :: ts)) = Fail) \/
-  (exists r', Ev (CFnArgs (tk1 KLParen :: ts)) (0, r') /\ expect KArrow r' = Fail).
-Proof.
-  intros H. destruct ts as [|[k1 n1] rest]; [left; exists 3%nat; reflexivity|].
-  destruct k1; cbn in H; try discriminate; try (left; exists 3%nat; reflexivity).
-  all: destruct rest as [|[k2 n2] rest2]; [left; exists 3%nat; reflexivity|].
-  all: destruct k2; cbn in H; try discriminate; try (left; exists 3%nat; reflexivity).
-  all: right; exists rest2; (split; [exists 3%nat; reflexivity|]); unfold expect; apply negb_true_iff in H; rewrite H; reflexivity.
-Qed.
-
-Lemma paren_step ts r1 r2 : paren_try_fails ts = true ->
-  Ev (CType LLowest fl0 ts) (0, r1) -> expect KRParen r1 = Ok r2 ->
-  Ev (CParenOrFn (tk1 KLParen :: ts)) (0, r2).
-Proof.
-  intros Ht H1 He. apply Ev_all in H1 as [N1 H1].
-  destruct (fnargs_try ts Ht) as [[n Hn]|[r' [[n Hn] Hr']]].
-  - exists (S (N1 + n)). cbn [run F]. unfold F_parenorfn, snd_of, bind.
-    rewrite (run_mono n (N1 + n) _ ltac:(lia)) by (rewrite Hn; discriminate). rewrite Hn.
-    change (expect KLParen (tk1 KLParen :: ts)) with (Ok (A:=toks) ts). cbn iota.
-    unfold type_at, snd_of, bind. rewrite H1 by lia. rewrite He. reflexivity.
-  - exists (S (N1 + n)). cbn [run F]. unfold F_parenorfn, snd_of, bind.
-    rewrite (run_mono n (N1 + n) _ ltac:(lia)) by (rewrite Hn; discriminate). rewrite Hn, Hr'.
-    change (expect KLParen (tk1 KLParen :: ts)) with (Ok (A:=toks) ts). cbn iota.
-    unfold type_at, snd_of, bind. rewrite H1 by lia. rewrite He. reflexivity.
-Qed.
-
-Definition bad2 (post : toks) : bool :=
-  match post with
-  | (k, _) :: rest => match k with KQuestion | KColon | KComma => true | KRParen => is KArrow rest | _ => false end
-  | [] => false
-  end.
-
-Lemma paren_content t : head_atomic t = true -> wfb t = true ->
-  forall post, bad2 post = false -> paren_try_fails (R t post) = true.
-Proof.
-  induction t; intros Ha W post Hb; cbn [head_atomic wfb R] in *; try discriminate;
-    repeat match goal with H : _ && _ = true |- _ => apply andb_true_iff in H as [? ?] end.
-  - (* TPrim *) destruct post as [|[k n] p]; [reflexivity|]. cbn in *. destruct k; try discriminate; auto. rewrite Hb. reflexivity.
-  - (* TLit *) destruct k; try discriminate; reflexivity.
-  - (* TThis *) destruct post as [|[k n] p]; [reflexivity|]. cbn in *. destruct k; try discriminate; auto. rewrite Hb. reflexivity.
-  - reflexivity.
-  - (* TRef *) destruct args; [|reflexivity].
-    destruct post as [|[k n] p]; [reflexivity|]. cbn in *. destruct k; try discriminate; auto. rewrite Hb. reflexivity.
-  - apply IHt; auto.
-  - apply IHt1; auto.
-  - apply IHt1; auto.
-  - apply IHt1; auto.
-  - reflexivity.
-  - apply IHt1; auto.
-  - reflexivity.
-Qed.
-
-Lemma K_paren t : Kst t -> Kst (TParen t).
-Proof.
-  intros K W lvl f post r Hl _ Hf Ht _ Hs. cbn [R wfb tail_ok] in *.
-  apply andb_true_iff in W as [W Hp]. unfold paren_content_ok in Hp.
-  eapply type_of_prefix; [|exact Hs].
-  eapply (ev1 _ (CParenOrFn (tk1 KLParen :: R t (tk1 KRParen :: post))) (0, post)).
-  - eapply paren_step.
-    + apply paren_content; auto. cbn. apply negb_true_iff in Ht. exact Ht.
-    + apply K_delim; auto. reflexivity. apply tail_ok_harmless. reflexivity.
-    + reflexivity.
-  - intros s E1. cbn [F]. unfold F_prefix. cbn [hd_tk tk1 fst]. unfold snd_of, bind.
-    change ((KLParen, false) :: R t ((KRParen, false) :: post)) with (tk1 KLParen :: R t (tk1 KRParen :: post)).
-    rewrite E1. reflexivity.
-Qed.
-
-Lemma K_all t : Pst t.
-Proof.
-  induction t using ty_ind'; unfold Pst; (split; [|try exact I]).
-  - apply K_prim. - apply K_lit. - apply K_this. - apply K_unique.
-  - apply K_ref. eapply Forall_impl; [|eassumption]. intros a [Ha _]; exact Ha.
-  - apply K_arr, IHt. - apply K_idx; [apply IHt1|apply IHt2].
-  - apply K_tuple. assumption.
-  - intros W. discriminate.
-  - apply IHt.
-  - apply K_union; [apply IHt1|apply IHt2].
-  - apply K_inter; [apply IHt1|apply IHt2].
-  - apply K_keyof, IHt.
-  - apply K_infer.
-  - apply K_paren, IHt.
-  - apply K_cond; [apply IHt1|apply IHt2|apply IHt3|apply IHt4].
-  - apply K_pred, IHt.
-Qed.
-
-Lemma cargs_ok args post : args <> [] -> forallb wfb args = true ->
-  Ev (CArgs false (tk1 KLt :: join [tk1 KComma] (map R args) (push_gt mg post))) (1, post).
-Proof.
-  intros Hne W. destruct (push_gt_ok post) as [P1 [P2 [P3 P4]]].
-  assert (HK : Forall Kst args).
-  { apply Forall_forall. intros x _. apply (proj1 (K_all x)). }
-  pose proof (args_loop args Hne HK W (push_gt mg post) P1 P2 P3) as HJ.
-  remember (join [tk1 KComma] (map R args) (push_gt mg post)) as J eqn:EJ. clear EJ.
-  eapply (ev1 _ (CArgLoop J) (0, push_gt mg post)); [exact HJ|].
-  intros s E1. cbn [F]. unfold F_args. cbn [hd_tk tk1 fst expect_lt]. unfold snd_of, bind. rewrite E1. rewrite P4. reflexivity.
-Qed.
-
-(* tokens that cannot continue a type (at any level): the follow set *)
-Definition follow_ok (rest : toks) : bool :=
-  stop_tk (hd_tk rest) && harmless (hd_tk rest).
-
-(* skip_exact, rendering with or without glued ">" tokens *)
-Lemma skip_exact_R t rest lvl f :
-  wfb t = true -> lvl <= LPrefix -> lvl_ok t lvl = true -> fNoCond f = false ->
-  follow_ok rest = true ->
-  exists N, forall m, (N <= m)%nat -> run m (CType lvl f (R t rest)) = Ok (0, rest).
-Proof.
-  intros W Hl Hlv Hf Hfo. apply andb_true_iff in Hfo as [Hs Hh].
-  apply Ev_all. apply (proj1 (K_all t)); auto.
-  - congruence.
-  - apply tail_ok_harmless. exact Hh.
-  - apply suffix_stop. exact Hs.
-Qed.
 End Main.
-
